@@ -5,3 +5,6 @@ cd "$(dirname "$0")/sim"
 export CARGO_NET_OFFLINE=true
 export RUSTFLAGS="${RUSTFLAGS:+$RUSTFLAGS }--cfg arrow_rs_verif"
 cargo build --release --offline --workspace --bins
+# ./check builds one package at a time (-p), which resolves features per package: warm those builds too
+cargo build --release --offline -p light --bins
+cargo build --release --offline -p checks --bins
